@@ -48,11 +48,12 @@ for p in props:
     seed2 = seed_cell(pid + "-r2")
     seed3 = seed_cell(pid + "-r3")
     seed4 = seed_cell(pid + "-r4")
+    seed5 = seed_cell(pid + "-r5")
     rows.append(f"| {pid} | {'claimed' if ready else 'not claimed'} | {cov.get('discharged', '-')}/{cov.get('obligations', '-')} | "
                 f"{cov.get('evaluations', '-')} | {' '.join(e.get('commit', '?') for e in fixed) or '-'} | "
-                f"{len(known) or '-'} | {seed or '-'} | {seed2 or '-'} | {seed3 or '-'} | {seed4 or '-'} | notes/{pid}.md |")
-table = ("| id | status | obligations (last run) | cases (last run) | `fix:` commits in /repo | known findings | seeded change, round 1 | seeded change, round 2 | seeded change, round 3 | seeded change, round 4 | details |\n"
-         "|----|--------|------------------------|------------------|--------------------------|----------------|-----------------------|-----------------------|-----------------------|-----------------------|---------|\n" + "\n".join(rows))
+                f"{len(known) or '-'} | {seed or '-'} | {seed2 or '-'} | {seed3 or '-'} | {seed4 or '-'} | {seed5 or '-'} | notes/{pid}.md |")
+table = ("| id | status | obligations (last run) | cases (last run) | `fix:` commits in /repo | known findings | seeded change, round 1 | seeded change, round 2 | seeded change, round 3 | seeded change, round 4 | seeded change, round 5 | details |\n"
+         "|----|--------|------------------------|------------------|--------------------------|----------------|-----------------------|-----------------------|-----------------------|-----------------------|-----------------------|---------|\n" + "\n".join(rows))
 d = (HERE / "DESIGN.md").read_text()
 a, b = "<!-- AS-BUILT:BEGIN -->", "<!-- AS-BUILT:END -->"
 if a in d:
